@@ -26,7 +26,19 @@ pub fn check(c: &Case) -> CheckResult {
     if first_invalid(&c.init).is_some() {
         return Err("HARNESS: generated initial contents are not premultiplied".into());
     }
-    let mut dt = new_target(c.w, c.h, &c.init);
+    // one case in four starts from a surface that from_vec() had to extend: a vector shorter than the surface
+    // (half of it, or empty) holding premultiplied pixels; whatever the library appends is its own output
+    let short = (c.w * 31 + c.h * 17 + c.nodes.len() as i32) % 4 == 0 && !c.init.is_empty();
+    let mut dt = if short {
+        let k = if c.nodes.len() % 2 == 0 { c.init.len() / 2 } else { 0 };
+        DrawTarget::from_vec(c.w, c.h, c.init[..k].to_vec())
+    } else {
+        new_target(c.w, c.h, &c.init)
+    };
+    if let Some(i) = first_invalid(dt.get_data()) {
+        return Err(format!("the surface built by from_vec from premultiplied pixels holds {} at pixel ({},{}) before any drawing", hex(dt.get_data()[i]), i as i32 % c.w, i as i32 / c.w));
+    }
+    o.class_if(short, "surface-extended-by-from_vec");
     let ops = flat(&c.nodes);
     let mut interesting = false;
     for (k, op) in ops.iter().enumerate() {
